@@ -99,6 +99,9 @@ type DefaultClientDispatcher struct {
 	timerDeadline       time.Time
 	paused              bool
 	timeout             time.Duration
+	// stoppedC is closed by Stop; pumpDone is closed by the message pump of the session when it has gone
+	stoppedC chan struct{}
+	pumpDone chan struct{}
 }
 
 const (
@@ -126,9 +129,19 @@ func (d *DefaultClientDispatcher) SetTimeout(timeout time.Duration) {
 }
 
 func (d *DefaultClientDispatcher) Start() {
+	// The message pump of a previous session (Stop is asynchronous for it) must be gone: it works on the
+	// same queue and timer, and resets the queue when it leaves.
+	d.mutex.RLock()
+	previous := d.pumpDone
+	d.mutex.RUnlock()
+	if previous != nil {
+		<-previous
+	}
 	d.mutex.Lock()
 	defer d.mutex.Unlock()
 	d.requestChannel = make(chan bool, 1)
+	d.stoppedC = make(chan struct{})
+	d.pumpDone = make(chan struct{})
 	d.timerMutex.Lock()
 	d.timer = time.NewTimer(defaultTimeoutTick) // Default to 24 hours tick
 	d.timerDeadline = time.Now().Add(defaultTimeoutTick)
@@ -139,7 +152,7 @@ func (d *DefaultClientDispatcher) Start() {
 	case <-d.readyForDispatch:
 	default:
 	}
-	go d.messagePump()
+	go d.messagePump(d.requestChannel, d.stoppedC, d.pumpDone)
 }
 
 func (d *DefaultClientDispatcher) IsRunning() bool {
@@ -157,7 +170,14 @@ func (d *DefaultClientDispatcher) IsPaused() bool {
 func (d *DefaultClientDispatcher) Stop() {
 	d.mutex.Lock()
 	defer d.mutex.Unlock()
-	close(d.requestChannel)
+	if d.requestChannel == nil {
+		// Not running
+		return
+	}
+	// The wake-up channel is dropped, not closed: a SendRequest racing Stop must not send on a closed channel.
+	// From here on IsRunning reports false; the message pump leaves on the stop signal.
+	d.requestChannel = nil
+	close(d.stoppedC)
 	// Pending requests are discarded along with the queue: a stale pending request would
 	// prevent any request sent after a restart from ever being set as pending.
 	d.pendingRequestState.ClearPendingRequests()
@@ -189,26 +209,19 @@ func (d *DefaultClientDispatcher) SendRequest(req RequestBundle) error {
 	return nil
 }
 
-func (d *DefaultClientDispatcher) messagePump() {
+func (d *DefaultClientDispatcher) messagePump(requestChannel chan bool, stoppedC chan struct{}, done chan struct{}) {
+	// (the channels of this session: Start replaces the ones in the struct)
+	defer close(done)
 	rdy := true // Ready to transmit at the beginning
-
-	reqChan := func() chan bool {
-		d.mutex.RLock()
-		defer d.mutex.RUnlock()
-		return d.requestChannel
-	}
 
 	for {
 		select {
-		case _, ok := <-reqChan():
+		case <-stoppedC:
+			// Dispatcher was stopped
+			d.requestQueue.Init()
+			return
+		case <-requestChannel:
 			// New request was posted
-			if !ok {
-				d.requestQueue.Init()
-				d.mutex.Lock()
-				d.requestChannel = nil
-				d.mutex.Unlock()
-				return
-			}
 		case _, ok := <-d.timer.C:
 			// Timeout elapsed
 			if !ok || !d.timerExpired() {
